@@ -1,9 +1,10 @@
 (** Extraction of the group "alloc" (C10, C09) to OCaml (ExtrOcamlBasic only).
     vp.py runs coqc on this file in .cache/ocaml/alloc/: writes model.ml / model.mli there. *)
 From Coq Require Extraction ExtrOcamlBasic.
-From DivanV Require Import Base.Res Base.ExtractPrelude Model.Tally.
+From DivanV Require Import Base.Res Base.ExtractPrelude Model.Tally Model.Profiler.
 Extraction Language OCaml.
 Set Extraction KeepSingleton.
 Extraction "model.ml" extraction_prelude
   run run_ev tmap_run proj
-  tally_sb tally_sb_why ev_sb ev_sb_why no_overflow all_ops ops_since_clear kind_of.
+  tally_sb tally_sb_why ev_sb ev_sb_why no_overflow all_ops ops_since_clear kind_of
+  run_prof op_of_req prof_sb prof_sb_why.
